@@ -130,8 +130,11 @@ def element(draw, depth, scope, allow_metal_slot=False):
         tal["condition"] = draw(expr(sc))
     if "repeat" in cmds:
         var = "it%d" % depth
+        if sc.get("vars") and draw(st.integers(0, 3)) == 0:
+            var = draw(st.sampled_from(sc["vars"]))  # an inner loop shadowing an outer loop variable
         tal["repeat"] = "%s %s" % (var, draw(st.sampled_from(SEQ_PATHS)))
-        sc = dict(sc, vars=sc.get("vars", []) + [var], repeats=sc.get("repeats", []) + [var])
+        sc = dict(sc, vars=[v for v in sc.get("vars", []) if v != var] + [var],
+                  repeats=[v for v in sc.get("repeats", []) if v != var] + [var])
         inner = dict(inner, vars=sc["vars"], repeats=sc["repeats"])
     for key in ("content", "replace"):
         if key in cmds:
